@@ -413,6 +413,9 @@ func (r *RCtx) Sub(method, path string) string {
 func (r *RCtx) CopyForLater() {
 	if r.St != nil {
 		r.St.AddCopy(r.C.Copy())
+		// the handler also hands the map of its values to the job (c.Data()); the job looks at it - and notes
+		// something in it - once the request is over
+		r.St.AddKept(r.C.Data())
 	}
 }
 
